@@ -18,6 +18,7 @@ RULE = (
     "newlines, non-ASCII; eval(repr(f)) in a namespace holding only the fmtfuncs names must give the same cells, and the AST may "
     "contain only those names, string literals, + and calls. Non-trivial: pair differing only in formatting or only in run "
     "boundaries; repr of a multi-run value with >=2 attributes on a run."
+    ' Both operands may be derived from observed parents (rendered/hashed before the derivation); pairs with the same display and the same number of runs but shifted or moved boundaries; repr texts include long whitespace-only runs.'
 )
 ASSUMPTIONS = ["'same terminal string' is judged with the library's own str() (C01 establishes what str() displays)"]
 SHARDS = {"quick": 4, "thorough": 16}
